@@ -1,6 +1,6 @@
 SPECIFICATION Spec
 CONSTANTS
-  Kinds = {"good", "noname", "badlabel", "badglyph", "compressed", "badsilf", "nocmap", "nogloc", "badlz4", "badlz4s", "hiddenfeat", "badfeat", "badfeat2", "badsill", "underflow"}
+  Kinds = {"good", "noname", "badlabel", "badglyph", "compressed", "badsilf", "nocmap", "nogloc", "badlz4", "badlz4s", "hiddenfeat", "badfeat", "badfeat2", "badsill", "underflow", "emptyname", "emptyglyf"}
   Srcs = {"ops"}
   Texts = {0, 1}
   ClientOps = {"label", "face_query", "featval", "destroy_fval", "make_font", "destroy_font", "make_seg", "shape", "query_seg", "justify", "destroy_seg"}
